@@ -64,6 +64,9 @@ func (h ledgersResourceHandler) ResolveFilter(_ common.ResourceQuery[ListLedgers
 	case property == "metadata":
 		return "metadata -> ? is not null", []any{value}, nil
 	case property == "name":
+		if operator == queries.OperatorIn {
+			return "name IN (?)", []any{bun.In(value)}, nil
+		}
 		return "name " + common.ConvertOperatorToSQL(operator) + " ?", []any{value}, nil
 	default:
 		return "", nil, common.NewErrInvalidQuery("invalid filter property %s", property)
